@@ -12,6 +12,8 @@ pub mod c09;
 pub mod c10;
 pub mod c11;
 pub mod c12;
+pub mod c13;
+pub mod stacks;
 pub mod c17;
 pub mod c18;
 pub mod c19;
@@ -28,6 +30,68 @@ pub fn run<P: Property>(p: &P, tier: Tier, seed: u64, replay: Option<&str>) -> i
     engine::finish(p.id(), report)
 }
 
+/// Run a property in a child process as uid nobody when we are root (so that chmod 000 is a real
+/// fault); the child prints its report as JSON, the parent writes evidence and violation files.
+pub fn run_unprivileged<P: Property>(p: &P, tier: Tier, seed: u64, replay: Option<&str>) -> i32 {
+    let is_child = std::env::var("WAXVERIF_CHILD").is_ok();
+    let root = unsafe { libc::geteuid() } == 0;
+    if !root || is_child {
+        if let Some(f) = replay {
+            return engine::replay_file(p, Path::new(f));
+        }
+        let out = engine::run_property(p, tier, seed);
+        let report = engine::build_report(p, tier, seed, out);
+        if is_child {
+            println!("WAXVERIF-REPORT {}", serde_json::to_string(&report).unwrap());
+            return 0;
+        }
+        return engine::finish(p.id(), report);
+    }
+    use std::os::unix::process::CommandExt;
+    let exe = std::env::current_exe().expect("current_exe");
+    let mut cmd = std::process::Command::new(exe);
+    cmd.arg(p.id()).arg("--tier").arg(tier.name()).arg("--seed").arg(seed.to_string());
+    if let Some(f) = replay {
+        cmd.arg("--replay").arg(f);
+    }
+    cmd.env("WAXVERIF_CHILD", "1").env_remove("RUST_BACKTRACE");
+    cmd.uid(65534).gid(65534);
+    unsafe {
+        cmd.pre_exec(|| {
+            libc::setgroups(0, std::ptr::null());
+            Ok(())
+        });
+    }
+    let out = match cmd.output() {
+        Ok(o) => o,
+        Err(e) => {
+            eprintln!("cannot start the unprivileged child: {}", e);
+            return 2;
+        },
+    };
+    let stdout = String::from_utf8_lossy(&out.stdout);
+    if replay.is_some() {
+        print!("{}", stdout);
+        return out.status.code().unwrap_or(2);
+    }
+    for line in stdout.lines() {
+        if let Some(js) = line.strip_prefix("WAXVERIF-REPORT ") {
+            match serde_json::from_str::<engine::Report>(js) {
+                Ok(r) => return engine::finish(p.id(), r),
+                Err(e) => {
+                    eprintln!("bad report from child: {}", e);
+                    return 2;
+                },
+            }
+        }
+        else {
+            println!("{}", line);
+        }
+    }
+    eprintln!("the unprivileged child produced no report (status {:?}): {}", out.status, String::from_utf8_lossy(&out.stderr));
+    2
+}
+
 pub fn dispatch(id: &str, tier: Tier, seed: u64, replay: Option<&str>) -> i32 {
     match id {
         "C01" => run(&c01::C01, tier, seed, replay),
@@ -42,6 +106,7 @@ pub fn dispatch(id: &str, tier: Tier, seed: u64, replay: Option<&str>) -> i32 {
         "C10" => run(&c10::C10, tier, seed, replay),
         "C11" => run(&c11::C11, tier, seed, replay),
         "C12" => run(&c12::C12, tier, seed, replay),
+        "C13" => run_unprivileged(&c13::C13, tier, seed, replay),
         "C17" => run(&c17::C17, tier, seed, replay),
         "C18" => run(&c18::C18, tier, seed, replay),
         "C19" => run(&c19::C19, tier, seed, replay),
